@@ -33,10 +33,12 @@ BASE = "/d/x.imec0.ap"
 
 
 def bounds(tier):
-    return {"faults": list(range(0, 9)), "chunks": np2env.N_CHUNKS}
+    return {"faults": list(range(0, 9)) if tier == "quick" else list(range(0, 13)), "chunks": 2 if tier == "quick" else 5}
 
 
 def setup():
+    import os
+    np2env.N_CHUNKS = 2 if os.environ.get("VERIF_TIER_ACTIVE", "quick") == "quick" else 5
     np2env.patch()
 
 
@@ -210,7 +212,7 @@ def cases(tier):
         cs.append(Case(f"compress_fault{k}", "case_compress", {"fault": k}))
         cs.append(Case(f"scratch_fault{k}", "case_decompress_scratch", {"fault": k, "scratch": False}))
         cs.append(Case(f"scratchdir_fault{k}", "case_decompress_scratch", {"fault": k, "scratch": True}))
-        if k is None or k < 6:
+        if k is None or k < (6 if tier == "quick" else 10):
             cs.append(Case(f"inplace_fault{k}", "case_decompress_inplace", {"fault": k}))
     return cs
 
